@@ -138,6 +138,15 @@ impl Registry {
                 syn::visit::visit_block(&mut v, &f.block);
                 let mut need = false;
                 for (ty, name) in v.names {
+                    if ty.as_deref() == Some("?") {
+                        // a method call: the receiver's type is not known here, so any registered method of that name counts
+                        if let Some(cs) = idx.fn_by_name.get(&name) {
+                            if cs.iter().any(|c| idx.fns[*c].self_ty.is_some() && self.fns.get(c).map(|r| r.fuel).unwrap_or(false)) {
+                                need = true;
+                            }
+                        }
+                        continue;
+                    }
                     if let Some(c) = resolve_fn(idx, self, f, ty.as_deref(), &name, true) {
                         if self.fns[&c].fuel {
                             need = true;
@@ -430,6 +439,11 @@ impl<'a> Tr<'a> {
                     "Ordering" => Ty::Ordering,
                     "Option" if targs.len() == 1 => Ty::Option(Box::new(self.conv_ty(targs[0]))),
                     "Result" if targs.len() == 2 => Ty::Result(Box::new(self.conv_ty(targs[0])), Box::new(self.conv_ty(targs[1]))),
+                    "CmpWrapper" if targs.len() == 1 => Ty::Adt("CmpWrapper".into(), vec![self.conv_ty(targs[0])]),
+                    "Self" if self.cur.self_syn.is_some() => {
+                        let t = self.cur.self_syn.clone().unwrap();
+                        self.conv_ty(&t)
+                    }
                     "Self" => match &self.cur.self_ty {
                         Some(t) => {
                             let t = t.clone();
@@ -490,6 +504,22 @@ impl<'a> Tr<'a> {
         }
     }
 
+    /// canonical text of a type (as `index::spec_key_syn` prints the type arguments of specialised impls)
+    pub fn spec_key(&self, t: &Ty) -> String {
+        match self.sub.resolve(t) {
+            Ty::Int(i) => format!("{}", Ty::Int(i)),
+            Ty::Bool => "bool".into(),
+            Ty::Char => "char".into(),
+            Ty::Str => "str".into(),
+            Ty::Ordering => "Ordering".into(),
+            Ty::Slice(e) => format!("[{}]", self.spec_key(&e)),
+            Ty::Option(e) => format!("Option<{}>", self.spec_key(&e)),
+            Ty::Adt(n, a) if !a.is_empty() => format!("{}<{}>", n, a.iter().map(|x| self.spec_key(x)).collect::<Vec<_>>().join(",")),
+            Ty::Adt(n, _) => n,
+            other => format!("{}", other),
+        }
+    }
+
     /// names of the type parameters of a struct / enum (without the pattern-bound ones)
     pub fn adt_type_params(&self, name: &str) -> Vec<String> {
         let gens: Option<&syn::Generics> = self.idx.find_struct(name, &self.cur.module).map(|s| &s.generics).or_else(|| self.idx.find_enum(name, &self.cur.module).map(|e| &e.generics));
@@ -546,6 +576,9 @@ impl<'a> Tr<'a> {
             }
             Ty::Option(e) => format!("(Option {})", self.lean_ty(e)?),
             Ty::Result(a, b) => format!("(Except {} {})", self.lean_ty(b)?, self.lean_ty(a)?),
+            // `CmpWrapper<T>(pub T)` is read as its field; the marker value of the coercion idiom as `()`
+            Ty::Adt(n, targs) if n == "CmpWrapper" && targs.len() == 1 => self.lean_ty(&targs[0])?,
+            Ty::Adt(n, _) if n == "IsAConstCmp" => "Unit".into(),
             Ty::Adt(n, targs) => {
                 let lean = self.reg.structs.get(n).or_else(|| self.reg.enums.get(n)).cloned().ok_or_else(|| format!("type `{}` is not a translation target", n))?;
                 // generic structs/enums: instantiated with the parameters of the same name in scope
@@ -599,6 +632,7 @@ impl<'a> Tr<'a> {
     /// the Rust type as text, with structs / enums under their Lean names (for signatures.json)
     pub fn ty_sig(&self, t: &Ty) -> String {
         match self.sub.resolve(t) {
+            Ty::Adt(n, a) if n == "CmpWrapper" && a.len() == 1 => self.ty_sig(&a[0]),
             Ty::Adt(n, _) => self.reg.structs.get(&n).or_else(|| self.reg.enums.get(&n)).cloned().unwrap_or(n),
             Ty::Slice(e) => format!("[{}]", self.ty_sig(&e)),
             Ty::Option(e) => format!("Option<{}>", self.ty_sig(&e)),
